@@ -30,14 +30,6 @@ theorem intOf_pyFmtD (w : Nat) (n : Int) : intOf (pyFmtD w n) = some n := by
   · have h0 : 0 ≤ n := by omega
     rw [intOf_digits _ (pyFmtD_ne_nil w n h0) (pyFmtD_all_digit w n h0), natOfDigits_pyFmtD w n h0]
 
-/-- `YY`: the last two digits of a four-digit year -/
-theorem yy_drop (y : Int) (h : 1000 ≤ y ∧ y ≤ 9999) : (pyFmtD 0 y).drop 2 = digitsW 2 (y.toNat % 100) := by
-  rw [pyFmtD_plain 4 y (by omega) (by decide) (Or.inl (by simp; omega)) (by simp; omega)]
-  simp only [digitsW, List.drop]
-  have e1 : y.toNat % 100 / 10 ^ 1 % 10 = y.toNat / 10 ^ 1 % 10 := by simp; omega
-  have e2 : y.toNat % 100 / 10 ^ 0 % 10 = y.toNat / 10 ^ 0 % 10 := by simp
-  rw [e1, e2]
-
 theorem natStr_eq (n : Int) (h : 0 ≤ n) : pyFmtD 0 n = natStr n.toNat := by
   rw [pyFmtD_nonneg 0 n h]; simp [natStr]
 
@@ -86,25 +78,48 @@ theorem expandItems_class (L : Loc) (its : List FItem) : ∀ n, expandItems L n 
 
 /-! ### only `ValueError` for class formats -/
 
-def Plain (p : Parsed) : Prop :=
-  p.timestamp = none ∧ p.quarter = none ∧ p.day_of_year = none ∧ p.day_of_week = none ∧ p.meridiem = none
+/-- invariant of the parsed state while the groups of a class format are read: no timestamp / quarter / weekday; when the
+    format has no 24-hour token (`safe`) the hour is absent or at most 12, otherwise no meridiem was read -/
+def Inv (safe : Bool) (p : Parsed) : Prop :=
+  p.timestamp = none ∧ p.quarter = none ∧ p.day_of_week = none ∧
+  (safe = true → p.hour = none ∨ ∃ n, p.hour = some n ∧ n ≤ 12) ∧ (safe = false → p.meridiem = none)
 
-theorem applyGroup_class_kinds (L : Loc) (t : NTok) (value : Str) (p : Parsed) (hp : Plain p) :
-    applyGroup L t.str value p = .error "ValueError" ∨ ∃ p', applyGroup L t.str value p = .ok p' ∧ Plain p' := by
+theorem applyGroup_class_kinds (L : Loc) (safe : Bool) (t : NTok) (value : Str) (p : Parsed) (hp : Inv safe p)
+    (h24 : safe = true → t.is24 = false) (hA : safe = false → t.isA = false) :
+    applyGroup L t.str value p = .error "ValueError" ∨ ∃ p', applyGroup L t.str value p = .ok p' ∧ Inv safe p' := by
   obtain ⟨a1, a2, a3, a4, a5⟩ := hp
-  have dig : ∀ (fk : FKind), (fk = FKind.year false ∨ fk = FKind.month ∨ fk = FKind.day ∨ fk = FKind.hour ∨ fk = FKind.minute
-      ∨ fk = FKind.second ∨ fk = FKind.micro) →
-      applyKind fk (PKind.int 1 0) value p = .error "ValueError" ∨ ∃ p', applyKind fk (PKind.int 1 0) value p = .ok p' ∧ Plain p' := by
-    intro fk hfk
+  -- digit kinds that leave hour and meridiem alone
+  have dig : ∀ (fk : FKind) (mul : Int), (fk = FKind.year false ∨ fk = FKind.year true ∨ fk = FKind.month ∨ fk = FKind.day
+      ∨ fk = FKind.dayOfYear ∨ fk = FKind.minute ∨ fk = FKind.second ∨ fk = FKind.micro) →
+      applyKind fk (PKind.int mul 0) value p = .error "ValueError"
+        ∨ ∃ p', applyKind fk (PKind.int mul 0) value p = .ok p' ∧ Inv safe p' := by
+    intro fk mul hfk
     cases hi : intOf value with
     | none =>
       left
-      rcases hfk with h|h|h|h|h|h|h <;> subst h <;> simp [applyKind, convInt, hi]
+      rcases hfk with h|h|h|h|h|h|h|h <;> subst h <;> simp [applyKind, convInt, hi]
     | some n =>
       right
-      rcases hfk with h|h|h|h|h|h|h <;> subst h <;> simp [applyKind, convInt, hi, Plain, a1, a2, a3, a4, a5]
+      rcases hfk with h|h|h|h|h|h|h|h <;> subst h <;> simp [applyKind, convInt, hi, Inv, a1, a2, a3] <;> exact ⟨a4, a5⟩
+  have hour24 : safe = false → (applyKind FKind.hour (PKind.int 1 0) value p = .error "ValueError"
+      ∨ ∃ p', applyKind FKind.hour (PKind.int 1 0) value p = .ok p' ∧ Inv safe p') := by
+    intro hs
+    cases hi : intOf value with
+    | none => left; simp [applyKind, convInt, hi]
+    | some n =>
+      right; simp [applyKind, convInt, hi, Inv, a1, a2, a3]
+      exact ⟨fun h => (by rw [hs] at h; cases h), a5⟩
+  have hour12 : applyKind FKind.hour12 (PKind.int 1 0) value p = .error "ValueError"
+      ∨ ∃ p', applyKind FKind.hour12 (PKind.int 1 0) value p = .ok p' ∧ Inv safe p' := by
+    cases hi : intOf value with
+    | none => left; simp [applyKind, convInt, hi]
+    | some n =>
+      by_cases hn : n > 12
+      · left; simp [applyKind, convInt, hi, hn]
+      · right; simp [applyKind, convInt, hi, hn, Inv, a1, a2, a3]
+        exact ⟨fun _ => by omega, a5⟩
   have offs : applyKind FKind.offset PKind.str value p = .error "ValueError"
-      ∨ ∃ p', applyKind FKind.offset PKind.str value p = .ok p' ∧ Plain p' := by
+      ∨ ∃ p', applyKind FKind.offset PKind.str value p = .ok p' ∧ Inv safe p' := by
     unfold applyKind
     cases ho : parseOffset value with
     | error e =>
@@ -117,23 +132,52 @@ theorem applyGroup_class_kinds (L : Loc) (t : NTok) (value : Str) (p : Parsed) (
       simp [this]
     | ok o => right; exact ⟨_, rfl, a1, a2, a3, a4, a5⟩
   cases t
-  case YYYY => exact dig (FKind.year false) (by simp)
-  case MM => exact dig FKind.month (by simp)
-  case M => exact dig FKind.month (by simp)
-  case DD => exact dig FKind.day (by simp)
-  case D => exact dig FKind.day (by simp)
-  case HH => exact dig FKind.hour (by simp)
-  case H => exact dig FKind.hour (by simp)
-  case mm => exact dig FKind.minute (by simp)
-  case m => exact dig FKind.minute (by simp)
-  case ss => exact dig FKind.second (by simp)
-  case s => exact dig FKind.second (by simp)
-  case SSSSSS => exact dig FKind.micro (by simp)
+  case YYYY => exact dig (FKind.year false) 1 (by simp)
+  case YY => exact dig (FKind.year true) 1 (by simp)
+  case MM => exact dig FKind.month 1 (by simp)
+  case M => exact dig FKind.month 1 (by simp)
+  case DD => exact dig FKind.day 1 (by simp)
+  case D => exact dig FKind.day 1 (by simp)
+  case DDDD => exact dig FKind.dayOfYear 1 (by simp)
+  case DDD => exact dig FKind.dayOfYear 1 (by simp)
+  case HH => cases safe with
+    | true => simp [NTok.is24] at h24
+    | false => exact hour24 rfl
+  case H => cases safe with
+    | true => simp [NTok.is24] at h24
+    | false => exact hour24 rfl
+  case hh => exact hour12
+  case h => exact hour12
+  case mm => exact dig FKind.minute 1 (by simp)
+  case m => exact dig FKind.minute 1 (by simp)
+  case ss => exact dig FKind.second 1 (by simp)
+  case s => exact dig FKind.second 1 (by simp)
+  case SSSSSS => exact dig FKind.micro 1 (by simp)
+  case S => exact dig FKind.micro 100000 (by simp)
+  case SS => exact dig FKind.micro 10000 (by simp)
+  case SSS => exact dig FKind.micro 1000 (by simp)
+  case SSSS => exact dig FKind.micro 100 (by simp)
+  case SSSSS => exact dig FKind.micro 10 (by simp)
   case Z => exact offs
   case ZZ => exact offs
+  case A =>
+    cases safe with
+    | false => simp [NTok.isA] at hA
+    | true =>
+      have e : applyGroup L NTok.A.str value p =
+          (if value == L.am.toList then Except.ok { p with meridiem := some false }
+            else if value == L.pm.toList then Except.ok { p with meridiem := some true }
+            else Except.error "ValueError") := rfl
+      rw [e]
+      by_cases c1 : (value == L.am.toList) = true
+      · right; rw [if_pos c1]; exact ⟨_, rfl, a1, a2, a3, a4, fun h => by cases h⟩
+      · rw [if_neg c1]
+        by_cases c2 : (value == L.pm.toList) = true
+        · right; rw [if_pos c2]; exact ⟨_, rfl, a1, a2, a3, a4, fun h => by cases h⟩
+        · left; rw [if_neg c2]
 
 theorem groupValues_names : ∀ (its : List FItem) (ns : List Nat) (s : Str),
-    ∀ x ∈ groupValues (its.map FItem.toPEl) ns s, ∃ t : NTok, x.1 = t.str := by
+    ∀ x ∈ groupValues (its.map FItem.toPEl) ns s, ∃ t ∈ toks its, x.1 = t.str := by
   intro its
   induction its with
   | nil => intro ns s x hx; simp [groupValues] at hx
@@ -143,31 +187,69 @@ theorem groupValues_names : ∀ (its : List FItem) (ns : List Nat) (s : Str),
     | nil => cases i <;> simp [FItem.toPEl, groupValues] at hx
     | cons n ns =>
       cases i with
-      | lit c => simp only [List.map_cons, FItem.toPEl, groupValues] at hx; exact ih ns _ x hx
+      | lit c =>
+        simp only [List.map_cons, FItem.toPEl, groupValues] at hx
+        obtain ⟨t, ht, e⟩ := ih ns _ x hx
+        exact ⟨t, by simp [toks, ht], e⟩
       | tok t =>
         simp only [List.map_cons, FItem.toPEl, groupValues, List.mem_cons] at hx
         rcases hx with h | h
-        · exact ⟨t, by rw [h]⟩
-        · exact ih ns _ x h
+        · exact ⟨t, by simp [toks], by rw [h]⟩
+        · obtain ⟨t', ht, e⟩ := ih ns _ x h
+          exact ⟨t', by simp [toks, ht], e⟩
 
-theorem applyGroups_class_kinds (L : Loc) : ∀ (gs : List (String × Str)), (∀ x ∈ gs, ∃ t : NTok, x.1 = t.str) →
-    ∀ p, Plain p → applyGroups L gs p = .error "ValueError" ∨ ∃ p', applyGroups L gs p = .ok p' ∧ Plain p' := by
+theorem applyGroups_class_kinds (L : Loc) (safe : Bool) (ts : List NTok)
+    (h24 : safe = true → ∀ t ∈ ts, t.is24 = false) (hA : safe = false → ∀ t ∈ ts, t.isA = false) :
+    ∀ (gs : List (String × Str)), (∀ x ∈ gs, ∃ t ∈ ts, x.1 = t.str) →
+    ∀ p, Inv safe p → applyGroups L gs p = .error "ValueError" ∨ ∃ p', applyGroups L gs p = .ok p' ∧ Inv safe p' := by
   intro gs
   induction gs with
   | nil => intro _ p hp; right; exact ⟨p, rfl, hp⟩
   | cons g gs ih =>
     intro hn p hp
-    obtain ⟨t, ht⟩ := hn g (by simp)
+    obtain ⟨t, htm, ht⟩ := hn g (by simp)
     obtain ⟨name, value⟩ := g
     simp only at ht
     subst ht
-    rcases applyGroup_class_kinds L t value p hp with he | ⟨p', hok, hp'⟩
+    rcases applyGroup_class_kinds L safe t value p hp (fun h => h24 h t htm) (fun h => hA h t htm) with he | ⟨p', hok, hp'⟩
     · left; simp [applyGroups, he]
     · simp only [applyGroups, hok]
       exact ih (fun x hx => hn x (by simp [hx])) p' hp'
 
+/-- `_check_parsed` on a state satisfying the invariant succeeds or raises `ValueError` -/
+theorem checkParsed_kinds (safe : Bool) (p : Parsed) (now : Now) (hp : Inv safe p) :
+    (∃ r, checkParsed p now = .ok r) ∨ checkParsed p now = .error "ValueError" := by
+  obtain ⟨a1, a2, a3, a4, a5⟩ := hp
+  have hm : p.meridiem = none ∨ ∃ pm, p.meridiem = some pm ∧ (p.hour = none ∨ ∃ n, p.hour = some n ∧ n ≤ 12) := by
+    cases safe with
+    | false => exact Or.inl (a5 rfl)
+    | true =>
+      cases hmm : p.meridiem with
+      | none => exact Or.inl rfl
+      | some pm => exact Or.inr ⟨pm, rfl, a4 rfl⟩
+  unfold checkParsed
+  simp only [a1, a2, a3]
+  cases hdoy : p.day_of_year with
+  | none =>
+    rcases hm with m | ⟨pm, m, hh | ⟨n, hh, hn⟩⟩
+    · left; simp [m, bind, Except.bind, pure, Except.pure]
+    · right; simp [m, hh, bind, Except.bind, pure, Except.pure, throw, throwThe, MonadExceptOf.throw]
+    · left; simp [m, hh, bind, Except.bind, pure, Except.pure, meridiemTooLate_small n _ _ _ hn]
+  | some doy =>
+    by_cases hc : (1 ≤ doy ∧ doy ≤ Cal.daysInYear (p.year.getD now.year)) ∧
+        1000 ≤ p.year.getD now.year ∧ p.year.getD now.year ≤ 9999
+    · rcases hm with m | ⟨pm, m, hh | ⟨n, hh, hn⟩⟩
+      · left; simp [m, hc, bind, Except.bind, pure, Except.pure]
+      · right; simp [m, hh, hc, bind, Except.bind, pure, Except.pure, throw, throwThe, MonadExceptOf.throw]
+      · left; simp [m, hh, hc, bind, Except.bind, pure, Except.pure, meridiemTooLate_small n _ _ _ hn]
+    · right; simp [hc, bind, Except.bind, pure, Except.pure, throw, throwThe, MonadExceptOf.throw]
+
+/-- a 24-hour token and the meridiem token do not occur together (`from_format("13 PM", "HH A")` raises `TypeError`) -/
+def MeridiemSafe (its : List FItem) : Bool := !(toks its).any NTok.is24 || !(toks its).any NTok.isA
+
 /-- for a format of the class and **any** input string, `Formatter.parse` either succeeds or raises `ValueError` -/
-theorem parse_class_kinds (L : Loc) (its : List FItem) (hrep : NoRepeat its = true) (time : Str) (now : Now) :
+theorem parse_class_kinds (L : Loc) (its : List FItem) (hrep : NoRepeat its = true) (hms : MeridiemSafe its = true)
+    (time : Str) (now : Now) :
     (∃ r, parseItems L time (its.map FItem.toItem) now = .ok r) ∨
       parseItems L time (its.map FItem.toItem) now = .error "ValueError" := by
   unfold parseItems
@@ -175,16 +257,27 @@ theorem parse_class_kinds (L : Loc) (its : List FItem) (hrep : NoRepeat its = tr
   · right; simp [hemp]
   · have h2 : hasDup ((toks its).map NTok.str) = false := by simpa [NoRepeat] using hrep
     simp only [hemp, pelsOf_class, elsOf_class, tokNames_class, h2, Bool.false_eq_true, if_false]
-    cases hd : dfs (fun s => s.isEmpty) (its.map FItem.toEl) time with
+    cases hd : dfs (fun s => s.isEmpty) (its.map (FItem.toEl L)) time with
     | none => right; rfl
     | some ns =>
       simp only
-      have hp0 : Plain ({} : Parsed) := ⟨rfl, rfl, rfl, rfl, rfl⟩
-      rcases applyGroups_class_kinds L _ (groupValues_names its ns time) {} hp0 with he | ⟨p', hok, hp'⟩
+      let safe : Bool := !(toks its).any NTok.is24
+      have h24 : safe = true → ∀ t ∈ toks its, t.is24 = false := by
+        intro hs t ht
+        have : (toks its).any NTok.is24 = false := by simpa [safe] using hs
+        have := (List.any_eq_false.mp this) t ht
+        simpa using this
+      have hA : safe = false → ∀ t ∈ toks its, t.isA = false := by
+        intro hs t ht
+        have h1 : (toks its).any NTok.is24 = true := by simpa [safe] using hs
+        have : (toks its).any NTok.isA = false := by
+          simp only [MeridiemSafe, h1, Bool.not_true, Bool.false_or, Bool.not_eq_true'] at hms; exact hms
+        have := (List.any_eq_false.mp this) t ht
+        simpa using this
+      have hp0 : Inv safe ({} : Parsed) := ⟨rfl, rfl, rfl, fun _ => Or.inl rfl, fun _ => rfl⟩
+      rcases applyGroups_class_kinds L safe (toks its) h24 hA _ (groupValues_names its ns time) {} hp0 with he | ⟨p', hok, hp'⟩
       · right; simp [he]
-      · left
-        obtain ⟨b1, b2, b3, b4, b5⟩ := hp'
-        simp only [hok, checkParsed_plain p' now b1 b2 b3 b4 b5]
-        exact ⟨_, rfl⟩
+      · simp only [hok]
+        exact checkParsed_kinds safe p' now hp'
 
 end Pendulum.Fmt
